@@ -198,10 +198,54 @@ def not_cases():
         sel(**{"from": [T("t")], "joins": [["left", T("u"), ["on", ["t", onc]]]], "selects": [["t", F("id", 0)], ["t", F("b", 1)]]}))]
 
 
+def correlated_cases():
+    """correlated sub-queries (EXISTS / IN / scalar comparison in WHERE, comparison in HAVING, scalar sub-query in the
+    select list) over tables sharing all column names; the inner WHERE is issued as 2-3 where() calls with the correlated
+    conjunct in every position"""
+    sel = lambda **kw: dict({"k": "sel", "cls": "SQLLiteQuery", "joins": []}, **kw)
+    outer = ["t", [], None]
+    corr = ["basic", "eq", F("a", 0), ["field", "id", outer, None], None]          # u.a = t.id
+    l1 = ["basic", "gt", F("b", 0), I(0), None]
+    l2 = ["basic", "lte", F("c", 0), I(5), None]
+    orders = [[corr, l1], [l1, corr], [corr, l1, l2], [l1, corr, l2], [l1, l2, corr]]
+
+    def inner(conj, item_level, selects):
+        if item_level:
+            w = ["t", conj[0]]
+            for x in conj[1:]:
+                w = ["cplx", "and", w, ["t", x]]
+        else:
+            t = conj[0]
+            for x in conj[1:]:
+                t = ["cplx", "and", t, x, None]
+            w = ["t", t]
+        return sel(**{"from": [T("u")], "selects": selects, "where": w, "where_split": True})
+    out = []
+    for n, conj in enumerate(orders):
+        il = n % 2 == 0
+        col = inner(conj, il, [["t", F("id", 0)]])
+        agg = inner(conj, il, [["t", ["func", "MAX", [F("b", 0)], None]]])
+        cnt = ["func", "COUNT", [["star", None]], None]
+        out += [
+            sel(**{"from": [T("t")], "selects": [["t", F("id", 0)], ["t", F("a", 0)]], "where": ["exists", col, False]}),
+            sel(**{"from": [T("t")], "selects": [["t", F("id", 0)], ["t", F("b", 0)]], "where": ["in", F("b", 0), col, n % 2 == 1]}),
+            sel(**{"from": [T("t")], "selects": [["t", F("id", 0)]], "where": ["cmp", "gte", F("b", 0), agg]}),
+            sel(**{"from": [T("t")], "selects": [["t", F("id", 0)], ["sub", dict(agg, alias="m")]]}),
+        ]
+    # in HAVING the sub-query is correlated with the group key
+    for conj in orders[:3]:
+        agg = inner([["basic", "eq", F("a", 0), ["field", "a", outer, None], None]] + conj[1:] if conj[0] is corr else
+                    [conj[0], ["basic", "eq", F("a", 0), ["field", "a", outer, None], None]] + conj[2:], True,
+                    [["t", ["func", "MIN", [F("b", 0)], None]]])
+        out.append(sel(**{"from": [T("t")], "selects": [["t", F("a", 0)], ["t", ["func", "SUM", [F("b", 0)], None]]],
+                          "groupby": [["t", F("a", 0)]], "having": ["cmp", "gt", ["func", "SUM", [F("b", 0)], None], agg]}))
+    return [{"kind": "sq", "order": None, "spec": x} for x in out]
+
+
 def corpus():
     sel = lambda **kw: dict({"k": "sel", "cls": "SQLLiteQuery", "joins": []}, **kw)
     cnt = ["func", "COUNT", [["star", None]], None]
-    return window_frame_cases() + form_cases() + naming_cases() + not_cases() + [
+    return correlated_cases() + window_frame_cases() + form_cases() + naming_cases() + not_cases() + [
         # F1: GROUP BY replaced by the select alias "b", which SQLite binds to the column t.b
         {"kind": "sq", "order": None, "spec": sel(
             **{"from": [T("t")], "selects": [["t", ["arith", "add", F("a", 0), I(1), "b"]], ["t", cnt]],
